@@ -106,6 +106,9 @@ def _random_jobs(rng, n):
                     texts.append(b"y")
                 kinds, texts = kinds[:k], texts[:k]
             yield ("fmt", "%", f, kinds, texts)
+        elif r < 0.73:
+            # a manipulator in the argument list acts on that message only
+            yield ("raisem", rng.choice(POOL + [b"mask 0x"]), rng.randint(-50, 300), rng.choice(["hex", "bool", "prec"]))
         elif r < 0.9:
             n_args = rng.randint(1, 6)
             yield ("raise", rng.choice("nc") if n_args <= 2 else "n", n_args,
@@ -148,6 +151,8 @@ def op_line(job):
         return " ".join(["RAISE", cust] + toks)
     if job[0] == "raisef":
         return " ".join(["RAISEF", hx(job[1])] + ["s:" + hx(a) for a in job[2]])
+    if job[0] == "raisem":
+        return "RAISEM s:%s i:%d %s" % (hx(job[1]), job[2], job[3])
     raise ValueError(job)
 
 
@@ -216,6 +221,21 @@ def judge(job, res):
         got = bytes.fromhex(f[2][1:])
         if got != want:
             return ("raise:message-is-not-the-concatenation", "what() = %r, expected %r" % (got, want))
+        return None
+    if job[0] == "raisem":
+        text, num, how = job[1], job[2], job[3]
+        if how == "hex":
+            want = text + ("%x" % (num & 0xffffffff)).encode()
+        elif how == "bool":
+            want = text + (b"true" if num else b"false")
+        else:
+            want = text + ("%.3g" % (num / 7.0)).encode()
+        f = line.split()
+        if len(f) != 3 or f[1] != "nitro":
+            return ("raise:no-library-exception", line[:200])
+        got = bytes.fromhex(f[2][1:])
+        if got != want:
+            return ("raise:message-with-manipulator-differs", "what() = %r, expected %r" % (got, want))
         return None
     if job[0] == "raisef":
         want = reference(job[1], job[2])
